@@ -20,7 +20,12 @@
 //	      proto      fresh nodes from shared prototypes / type system (basicnode, bindnode, gendemo)
 //	      wrapschema bindnode.Wrap with an explicit schema type
 //	      wrapinfer  bindnode.Wrap with a nil schema type: inferSchema → defaultTypeSystem  (known race)
-//	observation: norace;same | norace;differ | race:<class>[,<class>] | childfail:<what>
+//	      clonets    goroutines clone / merge types OUT OF a shared type system (schema.Clone, MergeTypeSystem) while
+//	                 others read it (Fields, Field(name).Type(), Parent, lookups, bindnode over it); afterwards the
+//	                 source type system must be what it was (parents, field types resolve in the source universe)
+//	      stopat     one compiled ExploreRecursive with a stopAt link condition, walked by every goroutine over a DAG
+//	                 that contains the stop link and other links, through one Config / LinkSystem
+//	observation: norace;same | norace;differ | norace;changed (a shared object was modified) | race:<class>[,<class>] | childfail:<what>
 package main
 
 import (
@@ -46,6 +51,7 @@ import (
 	"github.com/ipld/go-ipld-prime/codec/dagcbor"
 	"github.com/ipld/go-ipld-prime/codec/dagjson"
 	"github.com/ipld/go-ipld-prime/datamodel"
+	"github.com/ipld/go-ipld-prime/fluent"
 	"github.com/ipld/go-ipld-prime/linking"
 	cidlink "github.com/ipld/go-ipld-prime/linking/cid"
 	"github.com/ipld/go-ipld-prime/node/basicnode"
@@ -69,6 +75,18 @@ type rec struct {
 	Name string
 	Age  int64
 	Tags []string
+}
+
+// Go types for the schema of the clonets scenario
+type point struct {
+	X int64
+	Y int64
+}
+type shape struct {
+	Name string
+	At   point
+	Tags []string
+	More *point
 }
 
 // Distinct named types for the inferred-schema scenario: the first Wrap of a type infers its schema
@@ -189,6 +207,10 @@ type world struct {
 	recType   schema.Type
 	recProt   schema.TypedPrototype
 	stream    datamodel.Node
+	ts2       *schema.TypeSystem // clonets: the shared type system others clone out of
+	ts2Desc   string             // … as described when it was made
+	stopSel   selector.Selector  // stopat: the one compiled selector
+	stopRoot  datamodel.Node
 	reference bool // the sequential reference world
 	finalsMu  sync.Mutex
 	finals    []func() string // re-verifications to run after every goroutine has finished
@@ -254,6 +276,88 @@ func unionNode() datamodel.Node {
 func allSelector() selector.Selector {
 	s, err := selector.CompileSelector(ssb.ExploreRecursive(selector.RecursionLimitNone(),
 		ssb.ExploreUnion(ssb.Matcher(), ssb.ExploreAll(ssb.ExploreRecursiveEdge()))).Node())
+	if err != nil {
+		panic(err)
+	}
+	return s
+}
+
+// describeTS: everything a reader can learn from a type system by its accessors, with the identities
+// that tie its parts together: a type belongs to this type system, a struct field belongs to its
+// struct (through Fields() and through Field(name)), and field / member / value types resolve to the
+// types of THIS type system.
+func describeTS(ts *schema.TypeSystem) (out string) {
+	defer func() {
+		if r := recover(); r != nil {
+			out += "!panic"
+		}
+	}()
+	var sb strings.Builder
+	same := func(t schema.Type) string {
+		if t == nil {
+			return "nil"
+		}
+		return t.Name() + "/" + strconv.FormatBool(t == ts.TypeByName(t.Name()))
+	}
+	for _, name := range ts.Names() {
+		t := ts.TypeByName(name)
+		fmt.Fprintf(&sb, "%s:%s:%v", name, t.TypeKind(), t.TypeSystem() == ts)
+		switch tt := t.(type) {
+		case *schema.TypeStruct:
+			for _, f := range tt.Fields() {
+				out = sb.String()
+				fmt.Fprintf(&sb, "{%s p=%v", f.Name(), f.Parent() == tt)
+				fmt.Fprintf(&sb, " t=%s %v %v", same(f.Type()), f.IsOptional(), f.IsNullable())
+				g := tt.Field(f.Name())
+				fmt.Fprintf(&sb, " byname p=%v t=%s}", g != nil && g.Parent() == tt, same(g.Type()))
+			}
+			fmt.Fprintf(&sb, "%T", tt.RepresentationStrategy())
+		case *schema.TypeUnion:
+			for _, m := range tt.Members() {
+				fmt.Fprintf(&sb, "{%s}", same(m))
+			}
+		case *schema.TypeList:
+			fmt.Fprintf(&sb, "{%s %v}", same(tt.ValueType()), tt.ValueIsNullable())
+		case *schema.TypeMap:
+			fmt.Fprintf(&sb, "{%s %s %v}", same(tt.KeyType()), same(tt.ValueType()), tt.ValueIsNullable())
+		case *schema.TypeEnum:
+			fmt.Fprintf(&sb, "{%s}", strings.Join(tt.Members(), ","))
+		}
+		sb.WriteByte(';')
+		out = sb.String()
+	}
+	return sb.String()
+}
+
+// the selector of the stopat scenario: match everything recursively, do not enter the stop link
+func stopAtSelector(stop datamodel.Link) selector.Selector {
+	np := basicnode.Prototype.Map
+	empty := func(fluent.MapAssembler) {}
+	spec := fluent.MustBuildMap(np, 1, func(na fluent.MapAssembler) {
+		na.AssembleEntry(selector.SelectorKey_ExploreRecursive).CreateMap(3, func(na fluent.MapAssembler) {
+			na.AssembleEntry(selector.SelectorKey_Limit).CreateMap(1, func(na fluent.MapAssembler) {
+				na.AssembleEntry(selector.SelectorKey_LimitNone).CreateMap(0, empty)
+			})
+			na.AssembleEntry(selector.SelectorKey_Sequence).CreateMap(1, func(na fluent.MapAssembler) {
+				na.AssembleEntry(selector.SelectorKey_ExploreUnion).CreateList(2, func(la fluent.ListAssembler) {
+					la.AssembleValue().CreateMap(1, func(na fluent.MapAssembler) {
+						na.AssembleEntry(selector.SelectorKey_Matcher).CreateMap(0, empty)
+					})
+					la.AssembleValue().CreateMap(1, func(na fluent.MapAssembler) {
+						na.AssembleEntry(selector.SelectorKey_ExploreAll).CreateMap(1, func(na fluent.MapAssembler) {
+							na.AssembleEntry(selector.SelectorKey_Next).CreateMap(1, func(na fluent.MapAssembler) {
+								na.AssembleEntry(selector.SelectorKey_ExploreRecursiveEdge).CreateMap(0, empty)
+							})
+						})
+					})
+				})
+			})
+			na.AssembleEntry(selector.SelectorKey_StopAt).CreateMap(1, func(na fluent.MapAssembler) {
+				na.AssembleEntry(string(selector.ConditionMode_Link)).AssignLink(stop)
+			})
+		})
+	})
+	s, err := selector.CompileSelector(spec)
 	if err != nil {
 		panic(err)
 	}
@@ -333,6 +437,75 @@ type BMap {String:Int}
 		} else {
 			w.cfg = &traversal.Config{}
 		}
+	case "clonets":
+		ts2, err := ipld.LoadSchemaBytes([]byte(`
+type Point struct {
+  x Int
+  y Int
+} representation tuple
+type Shape struct {
+  name String
+  at Point
+  tags [String]
+  more optional Point
+}
+type U union {
+  | Point "p"
+  | String "s"
+} representation keyed
+type E enum {
+  | A
+  | B
+}
+type LP [Point]
+type MSP {String:nullable Point}
+`))
+		if err != nil {
+			panic(err)
+		}
+		w.ts2 = ts2
+		w.ts2Desc = describeTS(ts2)
+	case "stopat":
+		store := &memstore.Store{Bag: map[string][]byte{}}
+		ls := cidlink.DefaultLinkSystem()
+		ls.SetReadStorage(store)
+		ls.SetWriteStorage(store)
+		lp := cidlink.LinkPrototype{Prefix: cidPrefix()}
+		leaf := func(s string) datamodel.Link {
+			l, err := ls.Store(linking.LinkContext{}, lp, basicnode.NewString(s))
+			if err != nil {
+				panic(err)
+			}
+			return l
+		}
+		stop := leaf("do not enter")
+		others := []datamodel.Link{leaf("a"), leaf("b"), leaf("c"), leaf("d"), leaf("e")}
+		// an inner block that itself links to the stop block and to others
+		inner, err := ls.Store(linking.LinkContext{}, lp, fluent.MustBuildList(basicnode.Prototype.List, 4, func(la fluent.ListAssembler) {
+			la.AssembleValue().AssignLink(others[0])
+			la.AssembleValue().AssignLink(stop)
+			la.AssembleValue().AssignLink(others[1])
+			la.AssembleValue().AssignLink(stop)
+		}))
+		if err != nil {
+			panic(err)
+		}
+		w.stopRoot = fluent.MustBuildList(basicnode.Prototype.List, 40, func(la fluent.ListAssembler) {
+			for i := 0; i < 40; i++ {
+				switch {
+				case i%3 == 1:
+					la.AssembleValue().AssignLink(stop)
+				case i%7 == 0:
+					la.AssembleValue().AssignLink(inner)
+				default:
+					la.AssembleValue().AssignLink(others[i%len(others)])
+				}
+			}
+		})
+		w.stopSel = stopAtSelector(stop)
+		ro := cidlink.DefaultLinkSystem()
+		ro.SetReadStorage(store)
+		w.cfg = &traversal.Config{Ctx: context.Background(), LinkSystem: ro, LinkTargetNodePrototypeChooser: chooser}
 	case "load":
 		store := &memstore.Store{Bag: map[string][]byte{}}
 		ls := cidlink.DefaultLinkSystem()
@@ -638,6 +811,69 @@ func (w *world) kindOps(kind string, k int) []string {
 			n2 := f2[k%8]()
 			add(dumpStr(n2))
 			add(dumpStr(n))
+		case "clonets":
+			add(describeTS(w.ts2))
+			if k%2 == 0 {
+				// build a private type system out of the shared one; clone single types
+				priv := &schema.TypeSystem{}
+				priv.Init()
+				schema.MergeTypeSystem(priv, w.ts2, false)
+				add(describeTS(priv))
+				runtime.Gosched()
+				schema.MergeTypeSystem(priv, w.ts2, true) // every type is a duplicate now: cloned, then dropped
+				add(strconv.Itoa(len(priv.Names())))
+				for _, name := range []string{"Shape", "Point", "U", "E", "LP", "MSP"} {
+					c := schema.Clone(w.ts2.TypeByName(name))
+					add(c.Name() + ":" + c.TypeKind().String() + ":" + strconv.FormatBool(c.TypeSystem() == nil))
+				}
+				p := bindnode.Wrap(&point{X: int64(k), Y: 2}, priv.TypeByName("Point"))
+				add(dumpStr(p))
+			} else {
+				// use the shared type system: typed nodes over it, both views, encode, copy
+				more := &point{X: 5, Y: 6}
+				if k%4 == 1 {
+					more = nil
+				}
+				sh := &shape{Name: "s" + strconv.Itoa(k), At: point{X: 1, Y: int64(k)}, Tags: []string{"a", "b"}, More: more}
+				n := bindnode.Wrap(sh, w.ts2.TypeByName("Shape"))
+				add(dumpStr(n))
+				runtime.Gosched()
+				add(dumpStr(n.Representation()))
+				var buf bytes.Buffer
+				add(errStr(dagcbor.Encode(n.Representation(), &buf)) + lib.Hex(buf.String()))
+				nb := bindnode.Prototype((*shape)(nil), w.ts2.TypeByName("Shape")).Representation().NewBuilder()
+				add(errStr(dagcbor.Decode(nb, bytes.NewReader(buf.Bytes()))))
+				add(dumpStr(nb.Build()))
+				st := w.ts2.TypeByName("Shape").(*schema.TypeStruct)
+				for _, f := range st.Fields() {
+					add(f.Name() + ":" + f.Type().Name() + ":" + strconv.FormatBool(f.Parent() == st))
+				}
+				add(st.Field("at").Type().(*schema.TypeStruct).Field("y").Type().Name())
+			}
+			runtime.Gosched()
+			add(describeTS(w.ts2))
+			unchanged := func() string { return "ts:" + strconv.FormatBool(describeTS(w.ts2) == w.ts2Desc) }
+			add(unchanged())
+			w.finalsMu.Lock()
+			w.finals = append(w.finals, unchanged)
+			w.finalsMu.Unlock()
+		case "stopat":
+			for round := 0; round < 6; round++ {
+				var sb strings.Builder
+				cnt := 0
+				e := traversal.Progress{Cfg: w.cfg}.WalkMatching(w.stopRoot, w.stopSel, func(p traversal.Progress, n datamodel.Node) error {
+					cnt++
+					if n.Kind() == datamodel.Kind_String {
+						s, _ := n.AsString()
+						sb.WriteString(p.Path.String() + "=" + s + ";")
+					}
+					return nil
+				})
+				add(errStr(e) + strconv.Itoa(cnt) + ":" + sb.String())
+				if round%2 == 0 {
+					runtime.Gosched()
+				}
+			}
 		default:
 			panic("kind " + kind)
 		}
@@ -693,6 +929,11 @@ func child(kind string, procs, n int, spec string, seed uint64) {
 		}
 		want[k] = runThread(ref, kind, k, opsOf(k), nil)
 	}
+	if os.Getenv("C20_DEBUG") != "" { // what the sequential reference saw
+		for k := 0; k < n; k++ {
+			fmt.Fprintf(os.Stderr, "want[%d] = %q\n", k, want[k])
+		}
+	}
 	w := setup(kind, shared)
 	got := make([][]string, n)
 	var wg sync.WaitGroup
@@ -710,9 +951,18 @@ func child(kind string, procs, n int, spec string, seed uint64) {
 	close(start)
 	wg.Wait()
 	same := true
+	changed := false
 	for _, f := range w.finals { // what the goroutines kept must still be what they were given
-		if !strings.HasSuffix(f(), ":true") {
+		if r := f(); !strings.HasSuffix(r, ":true") {
 			same = false
+			if strings.HasPrefix(r, "ts:") {
+				changed = true
+			}
+		}
+	}
+	for _, f := range ref.finals { // … and a shared object must be what it was after the sequential run as well
+		if r := f(); strings.HasPrefix(r, "ts:") && !strings.HasSuffix(r, ":true") {
+			changed = true
 		}
 	}
 	for k := 0; k < n; k++ {
@@ -720,7 +970,9 @@ func child(kind string, procs, n int, spec string, seed uint64) {
 			same = false
 		}
 	}
-	if same {
+	if changed {
+		fmt.Println("results=changed")
+	} else if same {
 		fmt.Println("results=same")
 	} else {
 		fmt.Println("results=differ")
@@ -944,7 +1196,7 @@ func main() {
 	next := func() string { id++; return fmt.Sprintf("s%d", id) }
 	// the fixed scenario kinds under every GOMAXPROCS
 	for _, p := range []int{1, 2, 16} {
-		for _, kind := range []string{"bindviews", "walkcfg", "load", "proto", "wrapschema", "stream", "walklazy", "wrapinfer"} {
+		for _, kind := range []string{"bindviews", "walkcfg", "load", "proto", "wrapschema", "stream", "walklazy", "wrapinfer", "clonets", "stopat"} {
 			run(next(), kind, p, 2+rng.Intn(6), "-")
 		}
 	}
